@@ -77,6 +77,7 @@ func (g *Goroutine) spawn(fr *frame, fnv Value, args []Value) {
 		r.fork(g, ng)
 	}
 	go ng.main()
+	g.visible() // the new goroutine may run before its creator continues
 }
 
 func (g *Goroutine) main() {
@@ -130,6 +131,14 @@ func (g *Goroutine) block(reason string, cond func() bool) {
 }
 
 // yield lets other runnable goroutines proceed (explicit scheduling point).
+// visible marks an operation other goroutines can observe (go, channel operations,
+// select, atomics): a scheduling point when the harness asked for them (vSchedPoints(2)).
+func (g *Goroutine) visible() {
+	if g.p.schedForks && g.p.schedPoints >= 2 && g.w.initDepth == 0 {
+		g.yield()
+	}
+}
+
 func (g *Goroutine) yield() {
 	s := g.p.sched
 	if len(s.gs) == 1 {
@@ -190,6 +199,28 @@ func (s *Sched) schedule(cur *Goroutine, exiting bool) {
 			}
 			if len(rs) == 1 {
 				next = rs[0]
+			} else if s.p.schedForks && s.p.delayBound {
+				// delay-bounded exploration: the default scheduler keeps the current goroutine
+				// running (or, when it cannot run, takes the next one round-robin); every
+				// deviation from that default costs one unit of the budget
+				def := rs[0]
+				if stay {
+					def = cur
+				} else {
+					for _, r := range rs {
+						if r.id > cur.id {
+							def = r
+							break
+						}
+					}
+				}
+				next = def
+				if s.p.delayLeft > 0 {
+					next = rs[s.p.choose(len(rs))]
+					if next != def {
+						s.p.delayLeft--
+					}
+				}
 			} else if s.p.schedForks && stay && s.p.preemptBound && s.p.preemptLeft <= 0 {
 				next = cur // pre-emption budget used up: voluntary yields no longer switch
 			} else if s.p.schedForks {
@@ -443,6 +474,7 @@ func (g *Goroutine) tryRecv(c *Chan) (Value, bool, bool) {
 }
 
 func (g *Goroutine) chanSend(fr *frame, cv Value, v Value) {
+	g.visible()
 	if r := g.p.race; r != nil && cv.R != nil {
 		r.release(g, cv.R)
 	}
@@ -464,6 +496,7 @@ func (g *Goroutine) chanSend(fr *frame, cv Value, v Value) {
 }
 
 func (g *Goroutine) chanRecv(fr *frame, cv Value) (Value, bool) {
+	g.visible()
 	if cv.R == nil {
 		g.block("recv on nil chan", func() bool { return false })
 		return Value{}, false
@@ -486,6 +519,7 @@ func (g *Goroutine) chanRecv(fr *frame, cv Value) (Value, bool) {
 }
 
 func (g *Goroutine) chanClose(fr *frame, cv Value) {
+	g.visible()
 	if cv.R == nil {
 		panic(&goPanic{val: g.w.prog.runtimeError("close of nil channel"), site: fr.stableSite(), msg: "close of nil channel", runtime: true})
 	}
@@ -508,6 +542,7 @@ func (g *Goroutine) chanClose(fr *frame, cv Value) {
 
 // selectOp implements ssa.Select.
 func (g *Goroutine) selectOp(fr *frame, ins *ssa.Select) Value {
+	g.visible()
 	type caseInfo struct {
 		c    *Chan
 		send bool
